@@ -6,6 +6,7 @@
 //! trojsenc \t addr \t payload                                        server udp packet encode
 //! s5ir | s5cr | s5irs | s5crs \t ops     the four socks5 handshake decoders
 //! s5udp \t datagram_hex                   Socks5UdpCodec::decode, one call
+//! s5udpo \t datagram_hex \t meta           the same call, result in item-list form "OK [addr:payload] rest=n" (direct oracles apply)
 //! s5udpenc \t addr \t payload
 //! http \t method_hex \t target_hex        recognize_http
 use std::io::Write;
@@ -108,6 +109,16 @@ pub fn exec(f: &[&str]) -> Vec<String> {
                 Ok(Some((p, a))) => format!("OK rest={} {}:{}", b.len(), addr_str(&a), hex(&p)),
                 Ok(None) => format!("OK rest={} none", b.len()),
                 Err(e) => format!("ERR {}", crate::canon::classify(&e)),
+            }
+        }
+        "s5udpo" => {
+            // same call as s5udp; the result is printed in the item-list form of the scripted components so that the
+            // direct oracles (@x / @n) of ./check apply to it
+            let mut b = BytesMut::from(&unhex(f[1])[..]);
+            match Socks5UdpCodec.decode(&mut b) {
+                Ok(Some((p, a))) => format!("OK [{}:{}] rest={}", addr_str(&a), hex(&p), b.len()),
+                Ok(None) => format!("OK [] rest={}", b.len()),
+                Err(e) => format!("ERR {} []", crate::canon::classify(&e)),
             }
         }
         "s5udpenc" => {
@@ -263,6 +274,7 @@ pub fn generate_trojan(w: &mut dyn Write, seed: u64, thorough: bool) {
         crate::emit_case(w, &["trojsrv".to_string(), hex(&pw), format!("D{}", hex(&rng.bytes(l)))], exec);
         crate::emit_case(w, &["trojcu".to_string(), format!("D{}", hex(&rng.bytes(l % 40)))], exec);
     }
+    trojan_audit(w, &mut Rng::new(seed ^ 0x7472_6f6a_6175_6431), thorough);
 }
 
 pub fn generate_socks5(w: &mut dyn Write, seed: u64, thorough: bool) {
@@ -338,6 +350,7 @@ pub fn generate_socks5(w: &mut dyn Write, seed: u64, thorough: bool) {
         }
         crate::emit_case(w, &["s5udp".to_string(), hex(&y)], exec);
     }
+    socks5_audit(w, &mut Rng::new(seed ^ 0x7335_6175_6431), thorough);
 }
 
 pub fn generate_http(w: &mut dyn Write, seed: u64, thorough: bool) {
@@ -384,5 +397,523 @@ pub fn generate_http(w: &mut dyn Write, seed: u64, thorough: bool) {
         let t: Vec<u8> = (0..n).map(|_| *rng.pick(alpha)).collect();
         let m = *rng.pick(&["GET", "CONNECT"]);
         emit(m, std::str::from_utf8(&t).unwrap());
+    }
+    http_audit(w, &mut Rng::new(seed ^ 0x6874_7470_6175_6431), thorough);
+}
+
+// =========================================================================================================
+// dimension audit (seeded/audit/aud-misc.md): generators for the dimensions the ones above kept at one value.
+// Every wire is built HERE from the published layouts (never through the implementation's encoders), so that
+// the direct oracles do not depend on the code under test.
+// =========================================================================================================
+fn aw_v4(ip: [u8; 4], port: u16) -> Vec<u8> {
+    let mut v = vec![1u8];
+    v.extend_from_slice(&ip);
+    v.extend_from_slice(&port.to_be_bytes());
+    v
+}
+fn aw_v6(ip: [u8; 16], port: u16) -> Vec<u8> {
+    let mut v = vec![4u8];
+    v.extend_from_slice(&ip);
+    v.extend_from_slice(&port.to_be_bytes());
+    v
+}
+fn aw_dom(h: &[u8], port: u16) -> Vec<u8> {
+    assert!(h.len() <= 255);
+    let mut v = vec![3u8, h.len() as u8];
+    v.extend_from_slice(h);
+    v.extend_from_slice(&port.to_be_bytes());
+    v
+}
+/// case-argument form ("D:hex:port" ..) of a SOCKS5-style address wire
+fn aw_str(w: &[u8]) -> String {
+    let p = u16::from_be_bytes([w[w.len() - 2], w[w.len() - 1]]);
+    match w[0] {
+        1 => format!("4:{}:{}", hex(&w[1..5]), p),
+        4 => format!("6:{}:{}", hex(&w[1..17]), p),
+        _ => format!("D:{}:{}", hex(&w[2..w.len() - 2]), p),
+    }
+}
+fn mapped_v6(ip: [u8; 4]) -> [u8; 16] {
+    let mut o = [0u8; 16];
+    o[10] = 0xff;
+    o[11] = 0xff;
+    o[12..].copy_from_slice(&ip);
+    o
+}
+/// addresses at the edges of every field: empty / 1-byte / 255-byte names, names that are not text (NUL, invalid
+/// UTF-8, truncated multi-byte), a name that looks like an IP literal, all-zero / all-one / IPv4-mapped IPs, ports 0 / 65535
+fn edge_addrs() -> Vec<Vec<u8>> {
+    vec![
+        aw_dom(b"", 9),
+        aw_dom(b"a", 0),
+        aw_dom(&[b'x'; 255], 65535),
+        aw_dom(b"a\0b", 80),
+        aw_dom(&[0xff, 0xfe, 0x80], 80),
+        aw_dom(&[b'h', 0xc3], 443),
+        aw_dom("h\u{e9}.\u{4e2d}".as_bytes(), 443),
+        aw_dom(b"127.0.0.1", 80),
+        aw_dom(b"[::1]", 80),
+        aw_v4([0, 0, 0, 0], 0),
+        aw_v4([255, 255, 255, 255], 65535),
+        aw_v6([0; 16], 0),
+        aw_v6(mapped_v6([1, 2, 3, 4]), 53),
+        aw_v6([0xff; 16], 65535),
+    ]
+}
+fn troj_key_hex(pw: &[u8]) -> Vec<u8> {
+    use sha2::{Digest, Sha224};
+    let h = Sha224::digest(pw);
+    h.iter().flat_map(|b| format!("{:02x}", b).into_bytes()).collect()
+}
+fn troj_head(pw: &[u8], cmd: u8, addr: &[u8]) -> Vec<u8> {
+    let mut v = troj_key_hex(pw);
+    v.extend_from_slice(b"\r\n");
+    v.push(cmd);
+    v.extend_from_slice(addr);
+    v.extend_from_slice(b"\r\n");
+    v
+}
+fn troj_packet(addr: &[u8], payload: &[u8]) -> Vec<u8> {
+    assert!(payload.len() <= 65535);
+    let mut v = addr.to_vec();
+    v.extend_from_slice(&(payload.len() as u16).to_be_bytes());
+    v.extend_from_slice(b"\r\n");
+    v.extend_from_slice(payload);
+    v
+}
+fn segs_at(w: &[u8], cuts: &[usize]) -> Vec<Vec<u8>> {
+    let mut ps: Vec<usize> = cuts.iter().copied().filter(|&c| c > 0 && c < w.len()).collect();
+    ps.sort();
+    ps.dedup();
+    let mut segs = Vec::new();
+    let mut last = 0;
+    for p in ps {
+        segs.push(w[last..p].to_vec());
+        last = p;
+    }
+    segs.push(w[last..].to_vec());
+    segs
+}
+fn random_segs(rng: &mut Rng, w: &[u8], max_cuts: u64) -> Vec<Vec<u8>> {
+    let k = rng.range(1, max_cuts) as usize;
+    let cuts: Vec<usize> = (0..k).map(|_| rng.range(1, w.len().max(2) as u64 - 1) as usize).collect();
+    segs_at(w, &cuts)
+}
+fn bytewise(w: &[u8]) -> Vec<Vec<u8>> {
+    w.iter().map(|b| vec![*b]).collect()
+}
+
+fn trojan_audit(w: &mut dyn Write, rng: &mut Rng, thorough: bool) {
+    let pw = b"password1".to_vec();
+    let a4 = aw_v4([127, 0, 0, 1], 80);
+    let srv = |w: &mut dyn Write, pw: &[u8], segs: &[Vec<u8>], meta: String| crate::emit_case(w, &["trojsrv".to_string(), hex(pw), dops(segs), meta], exec);
+    let cu = |w: &mut dyn Write, segs: &[Vec<u8>], meta: String| crate::emit_case(w, &["trojcu".to_string(), dops(segs), meta], exec);
+    let edge = edge_addrs();
+
+    // (1) the PASSWORD: empty, one byte, 300 bytes, non-ASCII, control bytes, one that looks like a key, random ones.
+    //     The implementation's client encoder against the model; the wire built here through the server decoder;
+    //     the same wire under every OTHER password of the list must release nothing.
+    let mut pws: Vec<Vec<u8>> = vec![
+        Vec::new(),
+        b"a".to_vec(),
+        vec![b'p'; 300],
+        "p\u{e4}ssw\u{f6}rd \u{4e2d}\u{6587}".as_bytes().to_vec(),
+        b"p\r\nq\0r\t".to_vec(),
+        troj_key_hex(b"password1"),
+        b"password1 ".to_vec(),
+        b"Password1".to_vec(),
+    ];
+    for _ in 0..(if thorough { 24 } else { 4 }) {
+        let n = rng.range(1, 64) as usize;
+        pws.push((0..n).map(|_| rng.range(0x20, 0x7e) as u8).collect());
+    }
+    for (i, p) in pws.iter().enumerate() {
+        for cmd in [1u8, 3] {
+            let a = &edge[(i * 2 + cmd as usize) % edge.len()];
+            let pa = &edge[(i * 3 + 1) % edge.len()];
+            let payload = rng.bytes_of(&[0, 1, 17, 300]);
+            crate::emit_case(w, &["trojenc".to_string(), hex(p), cmd.to_string(), aw_str(a), hex(&payload), aw_str(pa)], exec);
+            let mut wire = troj_head(p, cmd, a);
+            let body = if cmd == 1 { payload.clone() } else { troj_packet(pa, &payload) };
+            wire.extend_from_slice(&body);
+            wire.extend_from_slice(&body);
+            let expect = [payload.clone(), payload.clone()].concat();
+            srv(w, p, &[wire.clone()], format!("@x={}", hex(&expect)));
+            let cut = rng.range(1, wire.len() as u64 - 1) as usize;
+            srv(w, p, &segs_at(&wire, &[56, cut]), format!("@x={}", hex(&expect)));
+            srv(w, &pws[(i + 1) % pws.len()], &[wire.clone()], "@n".to_string());
+            srv(w, &pw, &[wire.clone()], "@n".to_string());
+        }
+    }
+
+    // (2) the COMMAND byte: all 256 values behind a genuine credential; only 1 and 3 open anything
+    for cmd in 0..=255u8 {
+        let pkt = troj_packet(&edge[(cmd as usize) % edge.len()], b"hello");
+        let mut wire = troj_head(&pw, cmd, &a4);
+        wire.extend_from_slice(&pkt);
+        let meta = match cmd {
+            1 => format!("@x={}", hex(&pkt)),
+            3 => format!("@x={}", hex(b"hello")),
+            _ => "@n".to_string(),
+        };
+        srv(w, &pw, &[wire.clone()], meta.clone());
+        if cmd < 8 || cmd % 32 == 0 || thorough {
+            srv(w, &pw, &segs_at(&wire, &[58, 59, 60]), meta);
+        }
+    }
+
+    // (3) the ADDRESS of the request at the edges of every field, tcp and udp, cut around every field boundary
+    for (ai, a) in edge.iter().enumerate() {
+        for cmd in [1u8, 3] {
+            let head = troj_head(&pw, cmd, a);
+            let hl = head.len();
+            let p1 = rng.bytes_of(&[1, 9, 40]);
+            let (wire, expect) = if cmd == 1 {
+                ([head.clone(), p1.clone()].concat(), p1.clone())
+            } else {
+                let pa = &edge[(ai + 5) % edge.len()];
+                ([head.clone(), troj_packet(pa, &p1), troj_packet(a, b"")].concat(), p1.clone())
+            };
+            let meta = format!("@x={}", hex(&expect));
+            srv(w, &pw, &[wire.clone()], meta.clone());
+            let mut cuts: Vec<usize> = (54..=64).chain(hl.saturating_sub(5)..=hl + 5).collect();
+            if thorough {
+                cuts = (1..wire.len()).collect();
+            }
+            cuts.sort();
+            cuts.dedup();
+            for c in cuts {
+                if c < wire.len() {
+                    srv(w, &pw, &segs_at(&wire, &[c]), meta.clone());
+                }
+            }
+            if wire.len() <= 420 {
+                srv(w, &pw, &bytewise(&wire), meta.clone());
+            }
+            // the request alone (an application that does not speak first)
+            srv(w, &pw, &[head.clone()], "@x=".to_string());
+        }
+    }
+
+    // (4) the SIZE of a udp packet: 0, 1, 2, around 255 / 256, 16 KiB, the largest UDP payload, the largest the
+    //     16-bit length can name; encoders against the model, decoders with cuts at every field boundary
+    let mut sizes: Vec<usize> = vec![0, 1, 2, 255, 256, 257, 1472, 16383, 16384, 65507, 65535];
+    if thorough {
+        sizes.extend_from_slice(&[16385, 32768, 65506, 65508, 65534]);
+    }
+    for (si, &n) in sizes.iter().enumerate() {
+        let payload = rng.bytes(n);
+        let pa = if n >= 16383 { aw_v4([10, 0, 0, 1], 53) } else { edge[si % edge.len()].clone() };
+        let big = n > 2000;
+        crate::emit_case(w, &["trojenc".to_string(), hex(&pw), "3".to_string(), aw_str(&a4), hex(&payload), aw_str(&pa)], exec);
+        if pa[0] != 3 {
+            crate::emit_case(w, &["trojsenc".to_string(), aw_str(&pa), hex(&payload)], exec);
+        }
+        let head = troj_head(&pw, 3, &a4);
+        let pkt = troj_packet(&pa, &payload);
+        let al = pa.len();
+        let meta = format!("@x={}", hex(&payload));
+        // server side: head + packet (+ a second, empty packet so that the end of the first one is a boundary inside the stream)
+        let wire = [head.clone(), pkt.clone(), troj_packet(&a4, b"")].concat();
+        let h = head.len();
+        let mut cutsets: Vec<Vec<usize>> = vec![vec![], vec![h], vec![h + al + 1], vec![h + al + 4, h + pkt.len() - 1], vec![h + 1, h + al, h + al + 2, h + al + 3, h + pkt.len()]];
+        if !big || thorough {
+            cutsets.push(vec![h + al + 4 + n / 2]);
+            cutsets.push(vec![h + al + 3]);
+            cutsets.push(vec![h + pkt.len() + 1]);
+        }
+        for cs in &cutsets {
+            srv(w, &pw, &segs_at(&wire, cs), meta.clone());
+        }
+        // client side: the same packet as a server reply
+        let wire = [pkt.clone(), troj_packet(&a4, b"")].concat();
+        for cs in &cutsets {
+            let cs: Vec<usize> = cs.iter().filter(|&&c| c > h).map(|c| c - h).collect();
+            cu(w, &segs_at(&wire, &cs), meta.clone());
+        }
+    }
+
+    // (5) SEVERAL packets per read: streams of 1..40 packets of mixed address kinds and lengths (zero-length ones
+    //     included) in one segment, one packet per segment, two per segment, cut at every field boundary, byte by
+    //     byte, random cuts; towards the server (behind the request) and towards the client
+    let counts: &[usize] = if thorough { &[1, 2, 3, 4, 5, 8, 17, 40, 100] } else { &[1, 2, 3, 5, 17, 40] };
+    for &k in counts {
+        for round in 0..(if thorough { 4 } else { 2 }) {
+            let mut pkts: Vec<Vec<u8>> = Vec::new();
+            let mut expect = Vec::new();
+            let mut bounds: Vec<usize> = Vec::new();
+            let mut off = 0usize;
+            for j in 0..k {
+                let a = if round == 0 && j % 3 == 0 { a4.clone() } else { rng.pick(&edge).clone() };
+                let n = *rng.pick(&[0usize, 0, 1, 2, 3, 17, 300, 1400]);
+                let n = if k >= 17 { n.min(300) } else { n };
+                let p = rng.bytes(n);
+                let pk = troj_packet(&a, &p);
+                bounds.extend_from_slice(&[off + 1, off + a.len(), off + a.len() + 1, off + a.len() + 2, off + a.len() + 3, off + a.len() + 4, off + pk.len()]);
+                off += pk.len();
+                expect.extend_from_slice(&p);
+                pkts.push(pk);
+            }
+            let stream = pkts.concat();
+            let meta = format!("@x={}", hex(&expect));
+            let head = troj_head(&pw, 3, &a4);
+            let h = head.len();
+            let full = [head.clone(), stream.clone()].concat();
+            let starts: Vec<usize> = pkts.iter().scan(0usize, |s, p| { let r = *s; *s += p.len(); Some(r) }).collect();
+            let mut segsets: Vec<Vec<usize>> = vec![vec![], starts.clone(), starts.iter().copied().step_by(2).collect(), bounds.clone()];
+            for _ in 0..3 {
+                let c = rng.range(1, 6) as usize;
+                segsets.push((0..c).map(|_| rng.range(1, stream.len().max(2) as u64 - 1) as usize).collect());
+            }
+            for cs in &segsets {
+                cu(w, &segs_at(&stream, cs), meta.clone());
+                let mut cs2: Vec<usize> = cs.iter().map(|c| c + h).collect();
+                srv(w, &pw, &segs_at(&full, &cs2), meta.clone());
+                cs2.push(h);
+                srv(w, &pw, &segs_at(&full, &cs2), meta.clone());
+            }
+            if stream.len() <= 600 {
+                cu(w, &bytewise(&stream), meta.clone());
+                srv(w, &pw, &bytewise(&full), meta.clone());
+            }
+            // end of stream inside the last packet: what came out before it is a prefix
+            if stream.len() > 1 {
+                let c = rng.range(1, stream.len() as u64 - 1) as usize;
+                cu(w, &[stream[..c].to_vec()], format!("@p={}", hex(&expect)));
+                srv(w, &pw, &[full[..h + c].to_vec()], format!("@p={}", hex(&expect)));
+            }
+        }
+    }
+
+    // (6) the CR LF pairs: each of them (after the key, after the request address, inside a packet) replaced by other
+    //     two-byte values, and by a single byte (everything behind it shifts).  Model comparison; no property
+    //     says what a receiver does with them
+    let variants: [&[u8]; 9] = [b"\n\r", b"\r\r", b"\n\n", b"\0\0", b"\r\0", b"  ", b"\xff\xff", b"\n", b"\r"];
+    for cmd in [1u8, 3] {
+        let head = troj_head(&pw, cmd, &a4);
+        let pa = aw_dom(b"a.b", 53);
+        let body = if cmd == 1 { b"payload\r\n\r\n".to_vec() } else { [troj_packet(&pa, b"one"), troj_packet(&a4, b"two")].concat() };
+        let wire = [head.clone(), body].concat();
+        let mut spots = vec![56usize, head.len() - 2];
+        if cmd == 3 {
+            spots.push(head.len() + pa.len() + 2);
+            spots.push(head.len() + pa.len() + 4 + 3 + a4.len() + 2);
+        }
+        for &s in &spots {
+            assert_eq!(&wire[s..s + 2], b"\r\n");
+            for v in variants {
+                let m = [&wire[..s], v, &wire[s + 2..]].concat();
+                srv(w, &pw, &[m.clone()], "@-".to_string());
+                srv(w, &pw, &segs_at(&m, &[s, s + 1]), "@-".to_string());
+                if cmd == 3 && s > head.len() {
+                    cu(w, &[m[head.len()..].to_vec()], "@-".to_string());
+                }
+            }
+        }
+    }
+
+    // (7) empty segments between the pieces; the client's own request reflected into its reply decoder; a server
+    //     reply stream presented to the server's request decoder; longer random input behind a plausible type byte
+    {
+        let wire = [troj_head(&pw, 3, &a4), troj_packet(&a4, b"abc"), troj_packet(&aw_dom(b"x", 1), b"")].concat();
+        let segs = vec![Vec::new(), wire[..30].to_vec(), Vec::new(), Vec::new(), wire[30..70].to_vec(), Vec::new(), wire[70..].to_vec(), Vec::new()];
+        srv(w, &pw, &segs, format!("@x={}", hex(b"abc")));
+        cu(w, &[wire.clone()], "@n".to_string());
+        cu(w, &bytewise(&wire), "@n".to_string());
+        let reply = [troj_packet(&a4, b"abc"), troj_packet(&a4, b"defg")].concat();
+        srv(w, &pw, &[reply.clone()], "@n".to_string());
+        srv(w, &pw, &[[reply.clone(), vec![b'0'; 80]].concat()], "@n".to_string());
+    }
+    for _ in 0..(if thorough { 1500 } else { 150 }) {
+        let n = rng.range(1, 300) as usize;
+        let mut x = rng.bytes(n);
+        x[0] = *rng.pick(&[1u8, 3, 4]);
+        if x[0] == 3 && n > 1 && rng.chance(1, 2) {
+            x[1] = rng.range(0, 12) as u8;
+        }
+        cu(w, &[x.clone()], "@-".to_string());
+        // behind a genuine request for udp: the packet decoder in the server's Udp state
+        srv(w, &pw, &[[troj_head(&pw, 3, &a4), x].concat()], "@-".to_string());
+    }
+}
+
+fn socks5_audit(w: &mut dyn Write, rng: &mut Rng, thorough: bool) {
+    let edge = edge_addrs();
+    let one = |w: &mut dyn Write, c: &str, segs: &[Vec<u8>], meta: Option<String>| {
+        let mut a = vec![c.to_string(), dops(segs)];
+        if let Some(m) = meta {
+            a.push(m);
+        }
+        crate::emit_case(w, &a, exec)
+    };
+    // (1) METHODS lists: 254 / 255 methods, none of them NO_AUTH, an unknown method at the very end, lists that offer
+    //     only methods this proxy does not implement.  A decoded greeting re-encodes to exactly the bytes received (@x)
+    let mut lists: Vec<Vec<u8>> = vec![
+        vec![0; 255],
+        vec![2; 255],
+        (0..255).map(|i| [0u8, 1, 2, 255][i % 4]).collect(),
+        vec![0; 254],
+        vec![1; 128],
+        vec![2],
+        vec![1],
+        vec![255],
+        vec![1, 2],
+        vec![2, 0],
+        vec![255, 255, 0],
+    ];
+    for _ in 0..(if thorough { 20 } else { 3 }) {
+        let n = rng.range(3, 255) as usize;
+        lists.push((0..n).map(|_| *rng.pick(&[0u8, 1, 2, 255])).collect());
+    }
+    for ms in &lists {
+        let mut g = vec![5u8, ms.len() as u8];
+        g.extend_from_slice(ms);
+        let meta = Some(format!("@x={}", hex(&g)));
+        one(w, "s5ir", &[g.clone()], meta.clone());
+        for c in [1usize, 2, 3, g.len() / 2, g.len() - 1] {
+            one(w, "s5ir", &segs_at(&g, &[c]), meta.clone());
+        }
+        one(w, "s5ir", &bytewise(&g), meta.clone());
+        one(w, "s5ir", &random_segs(rng, &g, 5), meta.clone());
+        // (greeting and request in one segment: component hshake -- this drain loop would hand the request to the greeting decoder again)
+        // an unknown method in the last / first / middle position: refused, nothing comes out
+        if ms.len() >= 2 {
+            for pos in [0usize, ms.len() / 2, ms.len() - 1] {
+                let mut bad = g.clone();
+                bad[2 + pos] = *rng.pick(&[3u8, 4, 0x7f, 0x80, 254]);
+                one(w, "s5ir", &[bad.clone()], Some("@n".to_string()));
+                one(w, "s5ir", &segs_at(&bad, &[2 + pos]), Some("@n".to_string()));
+            }
+        }
+        // the count byte promises one more method than ever arrives
+        let mut short = g.clone();
+        short[1] = short[1].wrapping_add(1);
+        if short[1] != 0 {
+            one(w, "s5ir", &[short], Some("@n".to_string()));
+        }
+    }
+    // (2) every value of every one-byte field: version, method, command, status, reserved, address type
+    let req = |c: u8, rsv: u8, a: &[u8]| [&[5u8, c, rsv][..], a].concat();
+    let a4 = aw_v4([127, 0, 0, 1], 80);
+    for v in 0..=255u8 {
+        one(w, "s5ir", &[vec![5, 1, v]], None); // method
+        one(w, "s5irs", &[vec![5, v]], None);
+        one(w, "s5ir", &[vec![v, 1, 0]], None); // version
+        one(w, "s5irs", &[vec![v, 0]], None);
+        let mut m = req(1, 0, &a4);
+        m[0] = v;
+        one(w, "s5cr", &[m.clone()], None);
+        one(w, "s5crs", &[{ let mut x = m.clone(); x[1] = 0; x }], None);
+        one(w, "s5cr", &[req(v, 0, &edge[v as usize % edge.len()])], None); // command
+        one(w, "s5crs", &[req(v, 0, &edge[v as usize % edge.len()])], None); // status
+        one(w, "s5cr", &[req(1, v, &edge[v as usize % edge.len()])], None); // reserved
+        one(w, "s5crs", &[req(0, v, &edge[v as usize % edge.len()])], None);
+        let mut t = req(1, 0, &aw_dom(b"abcdefghijklmnopq", 80)); // 17 + 4 bytes: long enough for every real type
+        t[3] = v;
+        one(w, "s5cr", &[t.clone()], None); // address type
+        one(w, "s5cr", &segs_at(&t, &[4, 5]), None);
+        t[1] = 0;
+        one(w, "s5crs", &[t], None);
+    }
+    // (3) requests / replies for the edge addresses, cut at every field boundary and byte by byte
+    for a in &edge {
+        for (c, cmd) in [("s5cr", 1u8), ("s5cr", 3), ("s5crs", 0), ("s5crs", 1)] {
+            let mut m = req(cmd, 0, a);
+            let extra = rng.bytes_of(&[0, 0, 4]);
+            m.extend_from_slice(&extra);
+            one(w, c, &[m.clone()], None);
+            let l = 3 + a.len();
+            let cuts: Vec<usize> = if thorough { (1..m.len()).collect() } else { vec![1, 2, 3, 4, 5, 6, l - 3, l - 2, l - 1, l] };
+            for cu in cuts {
+                if cu < m.len() {
+                    one(w, c, &segs_at(&m, &[cu]), None);
+                }
+            }
+            one(w, c, &bytewise(&m), None);
+        }
+    }
+    // (4) local udp datagrams: every value of RSV (2 bytes), FRAG, ATYP; payload sizes 0 .. the largest a datagram
+    //     can carry; truncation inside the address.  A fragment or a datagram without a whole address is never
+    //     delivered (@n); a whole unfragmented one is delivered with exactly its payload (@x)
+    let dgram = |rsv0: u8, rsv1: u8, frag: u8, a: &[u8], p: &[u8]| [&[rsv0, rsv1, frag][..], a, p].concat();
+    let udp = |w: &mut dyn Write, d: &[u8], meta: String| crate::emit_case(w, &["s5udpo".to_string(), hex(d), meta], exec);
+    for v in 0..=255u8 {
+        let a = &edge[v as usize % edge.len()];
+        let p = rng.bytes_of(&[0, 1, 30]);
+        udp(w, &dgram(0, 0, v, a, &p), if v == 0 { format!("@x={}", hex(&p)) } else { "@n".to_string() });
+        udp(w, &dgram(v, 0, 0, a, &p), format!("@x={}", hex(&p)));
+        udp(w, &dgram(0, v, 0, a, &p), format!("@x={}", hex(&p)));
+        let mut t = dgram(0, 0, 0, &aw_dom(b"abcdefghijklmnopq", 80), &p);
+        t[3] = v;
+        udp(w, &t, if [1u8, 3, 4].contains(&v) { "@-".to_string() } else { "@n".to_string() });
+    }
+    for (i, a) in edge.iter().enumerate() {
+        let sizes: &[usize] = if thorough || i < 3 { &[0, 1, 2, 1472, 9000, 65497, 65507, 65535] } else { &[0, 1, 1472] };
+        for &n in sizes {
+            let p = rng.bytes(n);
+            udp(w, &dgram(0, 0, 0, a, &p), format!("@x={}", hex(&p)));
+            if n <= 1472 {
+                crate::emit_case(w, &["s5udpenc".to_string(), aw_str(a), hex(&p)], exec);
+            }
+        }
+        let d = dgram(0, 0, 0, a, b"payload");
+        for cut in 0..3 + a.len() {
+            udp(w, &d[..cut], "@n".to_string());
+        }
+    }
+}
+
+fn http_audit(w: &mut dyn Write, rng: &mut Rng, thorough: bool) {
+    let mut emit = |m: &str, t: &str| crate::emit_case(w, &["http".to_string(), hex(m.as_bytes()), hex(t.as_bytes())], exec);
+    let methods = ["GET", "CONNECT", "Connect", "CONNECTX", "XCONNECT", "PROPFIND", "connect"];
+    // scheme spellings (case, other characters, missing / extra slashes), userinfo, host forms, port spellings
+    let schemes = ["http://", "HTTP://", "Http://", "hTtP://", "https://", "HTTPS://", "ht+tp://", "h.t-p://", "1://", "http:", "http:/", "http:///", "http:\\\\", "//", "://", "", "http://http://"];
+    let userinfo = ["", "user@", "user:pw@", "user:80@", ":@", "@", "a@b@", "user%40x@", "u:p:q@"];
+    let hosts = ["h", "H.Example.COM", "example.com.", "[::1]", "[::1", "::1]", "::1", "[2001:db8::1]", "[fe80::1%25eth0]", "[fe80::1%eth0]", "[v1.x]", "[]", "[[::1]]", "h]", "1.2.3.4", "0x7f.1", "h%41", "h#f", "a b", "\u{ff48}", "h\u{e9}"];
+    let ports = ["", ":80", ":0", ":00", ":080", ":00080", ":0000000000000000000080", ":65535", ":065535", ":65536", ":99999", ":+80", ":+0", ":+65535", ":+65536", ":+", ":++80", ":-1", ":-0", ": 80", ":80 ", ":8 0", ":0x50", ":\u{ff18}\u{ff10}", ":\u{0668}\u{0660}", ":1e3", ":80:81", "::80", ":80#f", ":80%20"];
+    let tails = ["", "/", "/p?q", "?q", "/a:b@c", "#f", "/?x=http://y:1/"];
+    for m in methods {
+        for sc in schemes {
+            for u in userinfo {
+                for h in hosts {
+                    for p in ports {
+                        // the full product is ~5 million: every pair of dimensions is covered by the systematic part below, the rest is sampled
+                        if !rng.chance(1, if thorough { 60 } else { 1200 }) {
+                            continue;
+                        }
+                        emit(m, &format!("{}{}{}{}{}", sc, u, h, p, rng.pick(&tails)));
+                    }
+                }
+            }
+        }
+    }
+    // systematic: one dimension at a time against a plain base, for GET (absolute form) and CONNECT (authority form and absolute form)
+    for m in ["GET", "CONNECT", "POST"] {
+        for sc in schemes {
+            for t in tails {
+                emit(m, &format!("{}example.com:8080{}", sc, t));
+                emit(m, &format!("{}example.com{}", sc, t));
+                emit(m, &format!("{}[::1]:8080{}", sc, t));
+            }
+        }
+        for u in userinfo {
+            for p in ["", ":80", ":+80", ":x"] {
+                for t in ["", "/", "/p@q"] {
+                    emit(m, &format!("http://{}example.com{}{}", u, p, t));
+                    emit(m, &format!("{}example.com{}{}", u, p, t));
+                    emit(m, &format!("http://{}[::1]{}{}", u, p, t));
+                }
+            }
+        }
+        for h in hosts {
+            for p in ports {
+                emit(m, &format!("http://{}{}/", h, p));
+                emit(m, &format!("{}{}", h, p));
+                if thorough {
+                    emit(m, &format!("HTTPS://u@{}{}?q", h, p));
+                }
+            }
+        }
     }
 }
